@@ -28,7 +28,10 @@ AllAdvs(s) == Range(s.advs) \cup Range(s.pre)
 Universe(sessions, extra) ==
   Probes \cup extra \cup UNION {{Norm(a.p) : a \in AllAdvs(sessions[i])} : i \in DOMAIN sessions}
 
-Both(s) == s.pw # "" /\ s.pwref.name # ""
+(* a secret reference: the name, the namespace, or both are given (the namespace is optional, and a reference that *)
+(* only has a namespace still is "some reference" for the session manager)                                      *)
+HasRef(r) == r.name # "" \/ r.ns # ""
+Both(s) == s.pw # "" /\ HasRef(s.pwref)
 SessIn(sessions, L, vrf) == {i \in L : sessions[i].vrf = vrf}
 
 ----------------------------------------------------------------------------
@@ -113,10 +116,10 @@ ParamFails15(cr, s, n) ==
   \cup If(n.multihop = s.multihop, "C15.Params.multihop")
   \cup If(n.bfd = s.bfd, "C15.Params.bfd")
   \cup If(n.disablemp = s.disablemp, "C15.Params.activation")
-  \cup If(~(n.password # "" /\ n.secret.name # ""), "C15.PasswordXor")
+  \cup If(~(n.password # "" /\ HasRef(n.secret)), "C15.PasswordXor")
   \cup If(LET plain == n.password = s.pw /\ n.secret.name = "" /\ n.secret.ns = ""
               ref == n.password = "" /\ n.secret = s.pwref
-          IN IF Both(s) THEN plain \/ ref ELSE IF s.pwref.name # "" THEN ref ELSE plain,
+          IN IF Both(s) THEN plain \/ ref ELSE IF HasRef(s.pwref) THEN ref ELSE plain,
           "C15.Params.password")
 
 SessionFails15(cr, s) ==
@@ -154,13 +157,17 @@ Fails15(sessions, L, cr, node) ==
                               PeerOf(sessions[i]) = (IF n.iface # "" THEN n.iface ELSE n.address),
                "C15.Stray")
 
-(* the speaker's choice for one peer (c = [pw, secretpw, ref, impl, handling]): never both; the configured   *)
-(* password is carried as it is, a configured secret as its content or as the reference                      *)
+(* the speaker's choice for one peer (c = [pw, secretpw, ref, impl, handling]).  It may pass on both a password and a *)
+(* reference only if the peer configuration itself holds both (the session manager then has to refuse or pick one,    *)
+(* which is judged on the session-manager observations); otherwise the configured password is carried as it is, a     *)
+(* configured secret as its content or as the reference                                                              *)
 PwFails(c, password, secret) ==
-  If(~(password # "" /\ secret.name # ""), "C15.PasswordXor")
-  \cup If(IF c.pw # "" THEN password = c.pw /\ secret.name = ""
-          ELSE IF c.ref.name # "" THEN (password = c.secretpw /\ secret.name = "") \/ (password = "" /\ secret = c.ref)
-          ELSE password = "" /\ secret.name = "", "C15.Params.password")
+  LET both == password # "" /\ HasRef(secret) IN
+  If(both => (c.pw # "" /\ HasRef(c.ref)), "C15.PasswordXor")
+  \cup If(IF both THEN password = c.pw /\ secret = c.ref
+          ELSE IF c.pw # "" THEN password = c.pw
+          ELSE IF c.ref.name # "" THEN (password = c.secretpw /\ ~HasRef(secret)) \/ (password = "" /\ secret = c.ref)
+          ELSE password = "" /\ (~HasRef(secret) \/ secret = c.ref), "C15.Params.password")
 
 (* a session carrying both a password and a secret reference may be refused *)
 Live15(sessions, created) == {i \in DOMAIN sessions : ~sessions[i].ghost /\ (created[i] \/ ~Both(sessions[i]))}
